@@ -174,9 +174,19 @@ def same_value(a, b, rel=1e-9):
     return abs(fa - fb) <= rel * max(1.0, abs(fa), abs(fb))
 
 
-def gen_pair(info, h):
-    """(y_true, prediction dict) in the value domain of the metric family."""
+SPECIAL_REG = [-1.0, -2.0, 0.0, -1, -2, 3.5, 2.0 ** 61 - 1]
+
+
+def gen_pair(info, h, special=False):
+    """(y_true, prediction dict) in the value domain of the metric family.  `special`: values whose hashes collide in
+    CPython (-1 / -2) and other edge values, for the metrics whose domain allows them."""
     fam = info["family"]
+    if special and not info["dict_input"]:
+        if fam == "reg" and info["name"] in ("MAE", "MSE", "RMSE"):
+            return SPECIAL_REG[(h >> 8) % len(SPECIAL_REG)], {"output": SPECIAL_REG[(h >> 24) % len(SPECIAL_REG)]}
+        if fam == "multi" and info["labels"]:
+            labs = [-1, -2, 3]
+            return labs[(h >> 8) % 3], {"output": labs[(h >> 12) % 3]}
     if info["dict_input"]:
         ps = [1 + (h >> (8 * i)) % 9 for i in range(3)]
         tot = float(sum(ps))
@@ -235,6 +245,8 @@ def gen_plan(rng, prop, run_index):
            "recorder": "subclass" if (run_index // len(metrics)) % 2 else "instance"}
     if rng.random() < 0.35:
         cfg["churn"] = rng.randint(1, 3)
+    if rng.random() < 0.2:
+        cfg["special"] = True
     return {"property": prop, "kind": "metric",
             "config": cfg, "ops": ops,
             "rs0": rng.getrandbits(48)}
@@ -381,7 +393,7 @@ def run_metric_plan(plan):
         try:
             if op["op"] == "call":
                 pk, obj = parties[op["party"] % len(parties)]
-                y, pred = gen_pair(info, H(seed, "pair", op.get("like", op["tag"])))
+                y, pred = gen_pair(info, H(seed, "pair", op.get("like", op["tag"])), special=cfg.get("special", False))
                 if "rot" in op and len(pred) > 1:
                     # the same values as an earlier call under permuted labels (and possibly another target)
                     keys = list(pred.keys())
